@@ -170,6 +170,12 @@ func (m *Machine) intrinsic(fn *ssa.Function, args []Val, caller *frame) handler
 			m.replayEnd = len(m.draws)
 			return nil
 		}
+	case "vCoinScript":
+		// draws with the constant bound 2 take scripted values from now on
+		return func() Val {
+			m.coinMode, m.coinFree, m.coinSeen = argInt(args[0]), argInt(args[1]), 0
+			return nil
+		}
 	case "vDrawLimit":
 		// more bounded draws than n from now on is reported as a failed assertion
 		return func() Val {
